@@ -188,7 +188,12 @@ class Check:
 
         # known findings: replay each listed witness on the implementation
         for kf in known:
-            w = json.loads((VERIF / kf["witness"]).read_text())
+            wpath = VERIF / kf["witness"]
+            if not wpath.exists():
+                # a listed finding without its witness cannot be replayed: it suppresses nothing
+                have_known.discard(kf["sig"])
+                continue
+            w = json.loads(wpath.read_text())
             part = next((p for p in self.parts if p.name == w.get("part")), self.parts[0])
             r = part.evaluate([w["case"]], tag="kf")[0]
             if r["err"] or not r["oracle_ok"]:
